@@ -119,11 +119,17 @@ impl Date {
     /// `Date` adds days
     #[inline]
     pub fn add_days(self, days: f64) -> Result<Date> {
-        let timestamp = self.0.add_days(days)?;
-        Ok(Date(Timestamp::try_from_usecs(
-            ((timestamp.usecs() as f64) / USECONDS_PER_SECOND as f64).round() as i64
-                * USECONDS_PER_SECOND,
-        )?))
+        // Round the microsecond count to the nearest second (ties away from zero) in integer
+        // arithmetic: `usecs as f64` is not exact beyond 2^53.
+        let usecs = self.0.add_days(days)?.usecs();
+        let rem = usecs % USECONDS_PER_SECOND;
+        let mut rounded = usecs - rem;
+        if rem >= USECONDS_PER_SECOND / 2 {
+            rounded += USECONDS_PER_SECOND;
+        } else if rem <= -(USECONDS_PER_SECOND / 2) {
+            rounded -= USECONDS_PER_SECOND;
+        }
+        Ok(Date(Timestamp::try_from_usecs(rounded)?))
     }
 
     /// `Date` subtracts `Date`
